@@ -12,4 +12,5 @@ var Targets = map[string]core.Target{
 	"C15": C15{},
 	"C16": C16{},
 	"C17": C17{},
+	"C18": C18{},
 }
